@@ -253,6 +253,23 @@ def check(repo: Repo, run: Run) -> None:
         run.ob("C19.V7", f"{rname}|{d}", False, f"{rname} serialises a policy value with {d}: {FOREIGN_SERIALISERS.get(d, 'its escaping convention is not CEL' + chr(39) + 's')}", mod.loc(c))
     if not bad7:
         run.ob("C19.V7", "serialisers", True, "policy values reach the text through q() or plain str() only", str(mod.path))
+    # V8: no part of a policy key is dropped -----------------------------------------------------------
+    # `text.split(sep)[k]` without a split limit keeps one piece and silently drops every further separator-delimited
+    # piece (`tag:aws:autoscaling:groupName` -> `aws`); partition / split(sep, 1) / a prefix slice keep the remainder
+    bad8, n8 = [], 0
+    for mname, fn in sorted(se.methods.items()):
+        for c in ast.walk(fn):
+            if isinstance(c, ast.Call) and isinstance(c.func, ast.Attribute) and c.func.attr in ("split", "rsplit", "partition", "rpartition") and c.args:
+                n8 += 1
+                if c.func.attr in ("split", "rsplit") and len(c.args) == 1 and not c.keywords:
+                    par = getattr(c, "_parent", None)
+                    if isinstance(par, ast.Subscript) and par.value is c and not isinstance(par.slice, ast.Slice):
+                        bad8.append((mname, c, par))
+    for mname, c, par in bad8:
+        run.ob("C19.V8", f"{mname}|{ast.unparse(c.func.value)[:30]}.{c.func.attr}", False,
+               f"{mname} keeps `{ast.unparse(par)[:60]}`: without a split limit every further `{ast.unparse(c.args[0])}`-separated piece of the policy text is dropped, so the emitted literal is not the policy's value", mod.loc(c))
+    if not bad8:
+        run.ob("C19.V8", "key pieces", True, f"no unlimited split(...)[k] on policy text in the rewriter ({n8} split/partition sites)", str(mod.path))
 
 
 def policy_derived(fn: ast.FunctionDef, e: ast.expr, depth: int = 0) -> bool:
